@@ -142,6 +142,7 @@ TypeTestLaw == row > 0 =>
 \* amount).  Each comes with hidden operands (and so also as a constant twin).
 H(n) == Hide(WInt, I(n))
 XC(prog, want) == [prog |-> prog, want |-> want]
+StV_(t) == WStruct(<< <<"value", t>> >>)
 T2V(a, b) == TupV(<<IntV(a), IntV(b)>>)
 Guard(x, safe) == If(Bin("!=", V("x"), I(0)), Block(<<Bin("/", I(10), V("x"))>>), Block(<<I(safe)>>))
 ExtraCases == <<
@@ -198,6 +199,19 @@ ExtraCases == <<
            Block(<<Match(V("v"), <<ArmVal(<<I(0)>>, Block(<<ContinueS>>)), ArmOther(Block(<<Asg("+=", V("seen"), I(1))>>)),
                                    ArmTy("s", WStr, Block(<<Asg("+=", V("brk"), I(1)), Break>>))>>)>>)),
        TupE(<<Deref(V("seen")), Deref(V("brk"))>>)>>, T2V(3, 0)),
+  \* one type test applied, one after the other, to values whose types differ only INSIDE (a field type, the members of a
+  \* nested union of equal size): each value is tested for itself, in either order
+  XC(<<FnDecl("d", <<P("v", WAny)>>, WInt, <<Ret(Match(V("v"), <<ArmTy("s", StV_(WInt), I(1)), ArmTy("s", StV_(WStr), I(2)), ArmOther(I(0))>>))>>),
+       TupE(<<CallE(V("d"), <<StructE(<< <<"value", H(1)>> >>)>>), CallE(V("d"), <<StructE(<< <<"value", S(<<115>>)>> >>)>>)>>)>>, T2V(1, 2)),
+  XC(<<FnDecl("d", <<P("v", WAny)>>, WInt, <<Ret(Match(V("v"), <<ArmTy("s", StV_(WInt), I(1)), ArmTy("s", StV_(WStr), I(2)), ArmOther(I(0))>>))>>),
+       TupE(<<CallE(V("d"), <<StructE(<< <<"value", S(<<115>>)>> >>)>>), CallE(V("d"), <<StructE(<< <<"value", H(1)>> >>)>>)>>)>>, T2V(2, 1)),
+  XC(<<FnDecl("d", <<P("v", WAny)>>, WInt, <<IfSet("q", WArr(IF_), V("v"), Block(<<Ret(I(1))>>), NoneV), IfSet("q", WArr(WMulti(<<WInt, WStr>>)), V("v"), Block(<<Ret(I(2))>>), NoneV), Ret(I(0))>>),
+       TupE(<<CallE(V("d"), <<ArrE(<<H(1), F(5)>>)>>), CallE(V("d"), <<ArrE(<<H(1), S(<<97>>)>>)>>)>>)>>, T2V(1, 2)),
+  XC(<<FnDecl("d", <<P("v", WAny)>>, WInt, <<IfSet("q", WArr(IF_), V("v"), Block(<<Ret(I(1))>>), NoneV), IfSet("q", WArr(WMulti(<<WInt, WStr>>)), V("v"), Block(<<Ret(I(2))>>), NoneV), Ret(I(0))>>),
+       TupE(<<CallE(V("d"), <<ArrE(<<H(1), S(<<97>>)>>)>>), CallE(V("d"), <<ArrE(<<H(1), F(5)>>)>>)>>)>>, T2V(2, 1)),
+  XC(<<Set("vs", Hide(WArr(WAny), ArrE(<<StructE(<< <<"value", I(1)>> >>), StructE(<< <<"value", S(<<115>>)>> >>), StructE(<< <<"value", I(2)>> >>)>>))),
+       Set("n", RedE("$+", "int", MapE(TFilterE(IterE(V("vs")), StV_(WInt)), FnE(<<P("s", StV_(WInt))>>, WInt, <<Ret(Field(V("s"), "value"))>>)))),
+       Set("m", MutE(WInt, I(0))), For("e", TFilterE(IterE(V("vs")), StV_(WStr)), Block(<<Asg("+=", V("m"), I(1))>>)), TupE(<<V("n"), Deref(V("m"))>>)>>, T2V(3, 1)),
   \* guards
   XC(<<Set("x", H(0)), Set("r1", Guard("x", 3)), Set("x", H(2)), Set("r2", Guard("x", 3)), TupE(<<V("r1"), V("r2")>>)>>, T2V(3, 5)),
   XC(<<Set("x", H(0)), Set("k", MutE(WInt, I(7))),
